@@ -710,7 +710,15 @@ class Item:
                 # `for &x in RECV`: the element is copied out
                 pat, mode = pat[1:].strip(), "val"
             bind = "let %s = %s%s[%s];" % (pat, {"ref": "&", "mut": "&mut ", "val": ""}[mode], r, iv)
-        self.rewrite(s, bopen + 1, "%slet mut %s: usize = 0;\n    while %s < %s.len()\n    /*@loop*/\n    {\n      %s/*@body*/" % (pre, iv, iv, r, bind), "R3-for-index")
+        keep = None
+        if pre and mode in ("ref", "val") and recv == self.text[s + mo.start(2):s + mo.end(2)].strip() and not recv.startswith("&"):
+            # the receiver expression is evaluated once and STAYS IN PLACE (so that R4 shims can apply to it)
+            keep = (s + mo.start(2), s + mo.end(2))
+        if keep:
+            self.rewrite(s, keep[0], "let %s = " % r, "R3-for-index")
+            self.rewrite(keep[1], bopen + 1, ";\n    let mut %s: usize = 0;\n    while %s < %s.len()\n    /*@loop*/\n    {\n      %s/*@body*/" % (iv, iv, r, bind), "R3-for-index")
+        else:
+            self.rewrite(s, bopen + 1, "%slet mut %s: usize = 0;\n    while %s < %s.len()\n    /*@loop*/\n    {\n      %s/*@body*/" % (pre, iv, iv, r, bind), "R3-for-index")
         for c in re.finditer(r"\bcontinue\b", self.m[bopen + 1:bclose]):
             cpos = bopen + 1 + c.start()
             if any(lo_ < cpos < lc_ for (_, _, lo_, lc_) in inner):
